@@ -114,3 +114,14 @@ def register(add, NOTE):
         "Theorems: symmetric Gauss tables => potential of a source segment independent of its orientation (far pairs); junction sense rule "
         "from end indices alone. PARTIAL: equivariance of the assembled solution under reversal / reordering / splitting is measured.",
         "Rocq proof (orientation independence) + correspondence + re-description oracle", "DESIGN.md §6 C06", note=NOTE + PART)
+    add("C19",
+        "util.format_float is a Gallina model on the exact rational value of the binary64 input (correctly rounded '% .Nf' / '% e', nine-character "
+        "cut, stripping of zeros / point / leading zero, padding, '-0'), equal character by character to the real function on thousands of "
+        "floats per run (1e-30..1e12, powers of ten and neighbours, ties, carries, 0.1). Theorems for ALL inputs: |f| >= 1 (no upper limit) "
+        "relative error <= 5e-7; 0.1 <= |f| < 1 relative <= 5e-6; fixed-point fields below 1 absolute < 1e-6 for every t <= 0 the float logarithm "
+        "can give; exponent fields below 0.1 relative <= 5e-7; zero prints as zero; at exact powers of ten (float logarithm one too small) the text "
+        "is exact. Structure theorems over the topology model: the geometry blocks list every pulse once in order; each pulse of an object is a "
+        "numbered current row of its block or one of its junction pulses, never both. PARTIAL: text -> value is the obvious reading (not a Coq "
+        "parser); column agreement and per-table formats are checked by re-reading every number of real reports. Known finding: V/m table layout.",
+        "Rocq proof (decimal rounding / truncation arithmetic over N and R) + character-wise vm_compute correspondence + report re-reading oracle",
+        "DESIGN.md §6 C19", note=NOTE + PART)
